@@ -810,6 +810,12 @@ impl CanonicalizeContext {
 					CanonicalizeContext::make_roman_numeral(mathml);
 				}
 				if first_char == '-' || first_char == '\u{2212}' {
+					if text.len() == first_char.len_utf8() {
+						// only a minus sign: it is an operator -- splitting it would leave an empty 'mn'
+						set_mathml_name(mathml, "mo");
+						mathml.set_text("-");
+						return Some(mathml);
+					}
 					let doc = mathml.document();
 					let mo = create_mathml_element(&doc, "mo");
 					let mn = create_mathml_element(&doc, "mn");
